@@ -1,7 +1,7 @@
 (* Evaluation of the C14 model on harness-written cases (correspondence check). *)
 From Coq Require Import List NArith ZArith String Bool.
 From V.Base Require Import Hex BigEndian.
-From V.C14 Require Import Model Bytes Proofs.
+From V.C14 Require Import Model Bytes Proofs Text.
 Import ListNotations.
 Local Open Scope Z_scope.
 
@@ -17,7 +17,10 @@ Inductive case :=
 | AlgCase (sk c : Z) (ok : bool)
 | SkCase (v : Z) (ser : string)
 | IdCase (v : Z) (ser : string)
-| HashCase (digest : string) (k : N) (hpoint sig negsig : string).   (* HashToPoint, Sign with a small key, Neg *)
+| HashCase (digest : string) (k : N) (hpoint sig negsig : string)    (* HashToPoint, Sign with a small key, Neg *)
+| TextSig (honest : string) (text : string) (err ok : bool)           (* Signature.SetHexString + VerifySig *)
+| TextPk (honest : string) (text : string) (err ok : bool)            (* Pubkey.SetHexString + VerifySig *)
+| TextScalar (text : string) (err : bool) (v : Z).                    (* Seckey / ID SetHexString on a fresh value *)
 
 Fixpoint flip_bit (b : bytes) (bit : nat) : bytes :=
   match b with
@@ -71,6 +74,13 @@ Definition chk_hash (d : string) (k : N) (hp sg ng : string) : bool :=
   bytes_eqb (g1_marshal H) (unhex hp) && sig_is_valid H &&
   bytes_eqb (g1_marshal S) (unhex sg) && bytes_eqb (g1_marshal (g1_neg S)) (unhex ng).
 
+Definition is_err {A} (r : res A) : bool := match r with Ok _ => false | Err _ => true end.
+Definition chk_scalar (text : string) (err : bool) (v : Z) : bool :=
+  match scalar_set_hex text with
+  | Some n => negb err && (Z.of_N n =? v)
+  | None => err && (v =? 0)
+  end.
+
 (* the direct evaluation of the model (slow: every on-curve test is two or three 256-bit modular
    multiplications by binary long division, and the code's repeated IsOnCurve calls are repeated) *)
 Definition check (c : case) : bool :=
@@ -100,6 +110,21 @@ Definition check (c : case) : bool :=
   | SkCase v ser => chk_sk v ser
   | IdCase v ser => chk_id v ser
   | HashCase d k hp sg ng => chk_hash d k hp sg ng
+  | TextSig h text err ok =>
+      let hb := unhex h in
+      match decode_hex_exact text 64 with
+      | None => err && negb ok
+      | Some b => eqbool (snd (sig_deserialize b)) err &&
+                  eqbool (verify_sig (pairing_for some_pk (honest_sig hb)) some_pk (fst (sig_deserialize b))) ok
+      end
+  | TextPk h text err ok =>
+      let hb := unhex h in
+      match decode_hex_exact text 128 with
+      | None => err && negb ok
+      | Some b => eqbool (is_err (pk_deserialize b)) err &&
+                  eqbool (verify_sig (pairing_for (byte_to_pk hb) test_sig) (byte_to_pk b) test_sig) ok
+      end
+  | TextScalar text err v => chk_scalar text err v
   end.
 
 (* what the cases files evaluate: one parse per candidate; the repeated curve tests and the parse of
@@ -137,6 +162,21 @@ Definition check_fast (c : case) : bool :=
   | SkCase v ser => chk_sk v ser
   | IdCase v ser => chk_id v ser
   | HashCase d k hp sg ng => chk_hash d k hp sg ng
+  | TextSig h text err ok =>
+      let hb := unhex h in
+      match decode_hex_exact text 64 with
+      | None => err && negb ok
+      | Some b => eqbool (snd (sig_deserialize b)) err &&
+                  eqbool (sig_verdict b hb (fst (sig_deserialize b))) ok
+      end
+  | TextPk h text err ok =>
+      let hb := unhex h in
+      match decode_hex_exact text 128 with
+      | None => err && negb ok
+      | Some b => eqbool (is_err (pk_deserialize b)) err &&
+                  eqbool (pk_verdict b hb (pk_deserialize b)) ok
+      end
+  | TextScalar text err v => chk_scalar text err v
   end.
 
 Lemma eqbool_true a b : eqbool a b = true <-> a = b.
@@ -185,10 +225,10 @@ Proof.
 Qed.
 
 (* a passing fast check is a passing direct check *)
-Opaque chk_zero chk_alg chk_sk chk_id chk_hash.
+Opaque chk_zero chk_alg chk_sk chk_id chk_hash chk_scalar.
 Theorem check_fast_sound c : check_fast c = true -> check c = true.
 Proof.
-  destruct c as [h cd [err nl valid ser ok] | h cd ok | h cd perr ser ok | h sb ok | sk c ok | v ser | v ser | d k hp sg ng].
+  destruct c as [h cd [err nl valid ser ok] | h cd ok | h cd perr ser ok | h sb ok | sk c ok | v ser | v ser | d k hp sg ng | h text err ok | h text err ok | text err v].
   - cbn [check_fast check]. set (hb := unhex h). set (b := cand_bytes hb cd).
     intro H. apply andb_true_iff in H as [Hok H]. apply bytes_okb_spec in Hok.
     assert (Hh : bytes_ok hb) by apply unhex_ok.
@@ -207,5 +247,12 @@ Proof.
   - exact (fun H => H).
   - exact (fun H => H).
   - exact (fun H => H).
+  - cbn [check_fast check]. destruct (decode_hex_exact text 64) as [b|] eqn:E; [|exact (fun H => H)].
+    destruct (decode_hex_exact_spec _ _ _ E) as (_ & _ & _ & _ & _ & _ & Hok).
+    rewrite (sig_verdict_ok b (unhex h) Hok (unhex_ok h)). exact (fun H => H).
+  - cbn [check_fast check]. destruct (decode_hex_exact text 128) as [b|] eqn:E; [|exact (fun H => H)].
+    destruct (decode_hex_exact_spec _ _ _ E) as (_ & _ & _ & _ & _ & _ & Hok).
+    rewrite (pk_verdict_ok b (unhex h) Hok (unhex_ok h)). exact (fun H => H).
+  - exact (fun H => H).
 Qed.
-Transparent chk_zero chk_alg chk_sk chk_id chk_hash.
+Transparent chk_zero chk_alg chk_sk chk_id chk_hash chk_scalar.
